@@ -24,6 +24,21 @@ let show_crs_with showv (a : Crs.crs) =
   if !bad then "BADCRS col-out-of-range" else
   "{" ^ string_of_int (List.length a.Crs.rows) ^ " " ^ string_of_int m ^ String.concat "" rows ^ "}"
 
+(* block matrices: tokens  np mp (k (J v*(b*b))*k)*np ; printed {np mp | J:v,v,... ...} *)
+let show_bcrs (a : MatOps2.bcrs) =
+  let m = a.MatOps2.bncols in
+  let bad = ref false in
+  let rows = List.map (fun r ->
+      " |" ^ String.concat "" (List.map (fun (c, blk) -> if c < 0 || c >= m then bad := true;
+                                 " " ^ string_of_int c ^ ":" ^ String.concat "," (List.map show_s (List.concat blk))) r)) a.MatOps2.brows in
+  if !bad then "BADCRS col-out-of-range" else
+  "{" ^ string_of_int (List.length a.MatOps2.brows) ^ " " ^ string_of_int m ^ String.concat "" rows ^ "}"
+let t_bcrs b t : MatOps2.bcrs =
+  let n = t_i t in let m = t_i t in
+  let rows = List.init n (fun _ -> t_list t (fun t -> let c = t_i t in
+      let blk = List.init b (fun _ -> List.init b (fun _ -> t_q t)) in (c, blk))) in
+  { MatOps2.bncols = m; MatOps2.brows = rows }
+
 let ok b = if b then "OK" else "FAIL"
 let okl l = match List.filter (fun (_, b) -> not b) l with
   | [] -> "OK" | bad -> "FAIL " ^ String.concat "," (List.map fst bad)
@@ -63,6 +78,15 @@ let () =
   List.iter (fun nm -> reg nm (fun t -> let a = t_crs t in show_crs (MatOps2.crs_copy sc a)))
     ["copy_tuple"; "copy_crs"; "copy_assign"; "copy_convert"; "copy_ranges"];
   reg "copy_assign_view" (fun t -> let a = t_crs t in let b = t_crs t in show_crs (MatOps2.crs_copy sc a) ^ " " ^ show_crs b);
+  (* adapter::block_matrix / unblock_matrix: block matrix printed as {np mp | J:v,v,..(row-major) ...} *)
+  reg "block" (fun t -> let b = t_i t in let a = t_crs t in
+    show_bcrs (some_or_exc "runtime_error" (MatOps2.block_matrix sc a b)));
+  reg "unblock" (fun t -> let b = t_i t in let a = t_crs t in
+    show_crs (MatOps2.unblock_matrix sc b (some_or_exc "runtime_error" (MatOps2.block_matrix sc a b))));
+  reg "o.block" (fun t -> let b = t_i t in let a = t_crs t in let c = t_bcrs b t in
+    ok (MatOps2.bcrs_eqb sc (MatOps2.block_spec sc a b) c));
+  reg "o.unblock" (fun t -> let a = t_crs t in let c = t_crs t in
+    okl [ "dense", MatOps2.dense_eq sc a c ]);
   (* complex values (non-trivial adjoint) *)
   reg "c.transpose" (fun t -> let a = t_crs_with t_c t in show_crs_with show_c (MatOps.transpose csc a));
   reg "c.saad" (fun t -> let a = t_crs_with t_c t in let b = t_crs_with t_c t in let s = t_b t in
